@@ -44,6 +44,11 @@ def gen_spec(seed, tier):
         for _ in range(rng.randint(1, 2)):
             w["weapons"].append(simgen.gen_weapon(rng))
             weapons.append(len(w["weapons"]) - 1)
+        if len(weapons) == 2 and rng.random() < 0.35:
+            # a cloned profile: both weapons were given the SAME Angular instance as their zero elevation
+            w["qpool"].append(gen.gen_angle_deg(rng, round(rng.uniform(0.0, 0.3), 4)))
+            for wid in weapons:
+                w["weapons"][wid]["zero"] = {"ref": len(w["qpool"]) - 1}
         shots = []
         for _ in range(rng.randint(1, 3)):
             w["shots"].append(simgen.gen_shot(rng, w, gen.pick(rng, weapons)))
@@ -70,6 +75,21 @@ def gen_spec(seed, tier):
     return {"seed": seed, "world": w, "programs": programs, "roles": roles, "config": cfg, "faults": faults}
 
 
+def gen_churn(seed, tier):
+    """object churn on ONE long-used calculator: a couple of hundred computations, each on freshly built, immediately
+    discarded objects whose drag tables have the same length and different contents - the history in which anything
+    remembered by object identity (addresses are recycled) or by a weak summary goes stale"""
+    rng = rng_for(seed, "program")
+    w = empty_world()
+    w["calcs"].append({"config": {"max_calc_step_size_feet": gen.pick(rng, [4.0, 8.0])}})
+    family = {"kind": "derived", "name": gen.pick(rng, gen.SHIPPED_TABLES), "stride": rng.randint(1, 3), "offset": rng.randint(0, 2)}
+    prog = [{"op": "new_calc", "calc": 0}]
+    for _ in range(rng.randint(150, 260)):
+        prog.append(simgen.gen_fire_tmp(rng, 0, family))
+    return {"seed": seed, "world": w, "programs": [prog], "roles": {"0": "client"}, "faults": [],
+            "config": {"mode": "none", "policy": "serial", "mean_run": 1000, "opcode": False}}
+
+
 def accept(v, spec, hist):
     """Narrow relaxation (DESIGN 4.5): while an `error` warning filter installed by the admin task may be in force, an
     operation may fail with the RuntimeWarning the library itself issues."""
@@ -79,6 +99,13 @@ def accept(v, spec, hist):
 
 
 def run_case(seed, tier, idx):
+    if rng_for(seed, "churn").random() < 0.025:
+        spec = gen_churn(seed, tier)
+        hist, viol, stats = run_spec(spec, accept)
+        rec = record(spec, hist, viol, stats)
+        rec["nontrivial"] = True
+        rec["churn"] = len(spec["programs"][0])
+        return rec
     spec = gen_spec(seed, tier)
     r = rng_for(seed, "sweep").random()
     p_int, p_d1, n = (0.2, 0.15, 24) if tier == "thorough" else (0.04, 0.04, 8)
@@ -103,4 +130,7 @@ def minimise(rep):
 
 
 def summarise(records):
-    return summarise_sim(records)
+    cov = summarise_sim(records, "Churn runs (one calculator, 150-260 computations on throw-away objects) count as non-trivial.")
+    cov["object_churn_runs"] = sum(1 for r in records if r.get("churn"))
+    cov["object_churn_operations"] = sum(r.get("churn", 0) for r in records)
+    return cov
